@@ -443,6 +443,34 @@ func (w world) RunCase(t *tape.Tape, st *super.Stats) *super.Violation {
 				root, what = root.DamageStructure(t)
 				inc("fault:structure:" + strings.SplitN(what, ":", 2)[0])
 			}
+			if t.Rare(4) {
+				// the top statement decides how everything below it is read: a file that is not a (sub)module at all -
+				// its body under another keyword (an extension statement, a plain word, a body statement, the other
+				// kind of module), with or without the header statements, or one of its statements alone
+				root = root.Clone()
+				switch kw := []string{"ex:ext", "x:y", "y", "container", "grouping", "extension", "module", "submodule"}[t.Draw(8)]; {
+				case kw == root.Kw:
+					if len(root.Kids) > 0 {
+						root = root.Kids[t.Draw(len(root.Kids))]
+						inc("fault:structure:top-is-one-body-statement")
+					}
+				default:
+					root.Kw = kw
+					inc("fault:structure:top-keyword")
+				}
+				if t.Coin() {
+					var kids []*genyang.Stmt
+					for _, k := range root.Kids {
+						switch k.Kw {
+						case "namespace", "prefix", "belongs-to", "yang-version", "import", "include", "revision", "organization", "contact":
+						default:
+							kids = append(kids, k)
+						}
+					}
+					root.Kids = kids
+					inc("fault:structure:top-without-header")
+				}
+			}
 		}
 		if root.Kw == "submodule" && root.Find("belongs-to") == nil {
 			inc("reach:submodule_without_belongs_to")
